@@ -670,6 +670,9 @@ var c18Markers = []c18Marker{
 	{"at:sentence", []string{"// This file is @generated by tool"}},
 	{"at:nospace", []string{"//@generated"}},
 	{"at:glued", []string{"// see tool@generated.example"}},
+	{"at:directive-line", []string{"//lint:file-ignore U1000 @generated by wiregen"}},
+	{"at:nolint-line", []string{"//nolint:all // @generated"}},
+	{"at:after-directive", []string{"//go:generate wiregen", "// @generated by wiregen"}},
 	{"near-at:cap", []string{"// @Generated"}},
 	{"near-at:space", []string{"// @ generated"}},
 	{"near-at:noat", []string{"// generated"}},
